@@ -4,11 +4,11 @@ From DV Require Import Status StatusP.
 (* the unstaged check reports exactly the tracked paths whose work-tree file is
    missing or differs from the index entry in content or (with core.filemode) in
    mode — for every index, every work tree, provided an unchanged stat signature
-   means an unchanged file (the stat-cache assumption git makes too) and no
-   directory stands where a file is tracked *)
+   means an unchanged file (the stat-cache assumption git makes too); a
+   directory standing where a file is tracked counts as a difference *)
 Theorem unstaged_is_exact : forall fm (i : index) (w : worktree) p x,
   i p = Some x ->
-  (forall y, w p = Some y -> w_isdir y = false /\ sig_faithful x y) ->
+  (forall y, w p = Some y -> sig_faithful x y) ->
   unstaged fm i w p = differs fm x (w p).
 Proof. intros fm i w p x E H. unfold unstaged. rewrite E. apply check_entry_exact. exact H. Qed.
 Print Assumptions unstaged_is_exact.
@@ -25,3 +25,40 @@ Print Assumptions clean_after_checkout.
 Theorem checkout_then_stage_is_identity : forall t sigs p, index_tree (add_all (snd (checkout t sigs))) p = t p.
 Proof. exact restage_same_tree. Qed.
 Print Assumptions checkout_then_stage_is_identity.
+
+(* ---------- the session as a state machine (Model/StatusSession.v) ---------- *)
+From DV Require Import StatusSession StatusSessionP.
+
+(* after ANY sequence of work-tree edits (write, mkdir, delete) and index edits
+   (add one path, add everything that is dirty, rm --cached, unstage), starting
+   from any state that honours the stat-cache discipline -- the state right after
+   a checkout does -- and provided no step is a racy write (ok_run: a write that
+   leaves the recorded signature unchanged left the content unchanged),
+   porcelain.status is exact: a path is listed as staged iff HEAD and the index
+   differ there, as unstaged iff it is tracked and the work tree differs from the
+   index entry (content; mode under core.filemode; missing; a directory in its
+   place), as untracked iff it is a file the index does not know *)
+Theorem status_exact_after_any_session : forall fm ops s0,
+  Faithful s0 -> ok_run fm s0 ops ->
+  let s := run fm s0 ops in
+  forall p,
+    (staged s p = true <-> hd s p <> index_tree (ix s) p) /\
+    st_unstaged fm s p = match ix s p with Some x => differs fm x (wt s p) | None => false end /\
+    (st_untracked s p = true <-> ix s p = None /\ exists y, wt s p = Some y /\ w_isdir y = false).
+Proof. exact status_exact_lemma. Qed.
+Print Assumptions status_exact_after_any_session.
+
+(* the hypothesis is met by every checkout, and kept by every non-racy step *)
+Theorem checkout_state_is_faithful : forall t sigs, Faithful (after_checkout t sigs).
+Proof. exact checkout_faithful. Qed.
+Print Assumptions checkout_state_is_faithful.
+
+Theorem session_keeps_stat_cache_discipline : forall fm ops s, Faithful s -> ok_run fm s ops -> Faithful (run fm s ops).
+Proof. exact run_faithful. Qed.
+Print Assumptions session_keeps_stat_cache_discipline.
+
+(* staging a path makes it clean *)
+Theorem staging_a_path_cleans_it : forall fm s p,
+  let s' := step fm s (OStage p) in st_unstaged fm s' p = false /\ st_untracked s' p = false.
+Proof. exact stage_cleans. Qed.
+Print Assumptions staging_a_path_cleans_it.
